@@ -774,6 +774,9 @@ func isFault(err error) bool {
 	return errors.As(err, &fe)
 }
 
+// setupHook, when set, runs right after a scenario instance has been constructed (C18 baseline).
+var setupHook func(h *fh)
+
 // exploreF explores one Failover scenario with the given oracle.
 func exploreF(cfg FCfg, env *Env, opt vsched.Options, post func(h *fh), check func(h *fh, r *vsched.Result) []Violation) CellResult {
 	res := CellResult{Exhaustive: true, Outcomes: map[string]int{}}
@@ -782,6 +785,10 @@ func exploreF(cfg FCfg, env *Env, opt vsched.Options, post func(h *fh), check fu
 
 	body := func() {
 		h = newFH(cfg)
+		if setupHook != nil {
+			setupHook(h)
+		}
+
 		h.body()
 
 		if post != nil {
